@@ -90,3 +90,17 @@ Fixpoint etrace (fixed : bool) (s : est) (ops : list eop) : list out :=
   end.
 
 Definition c20_ext (fixed : bool) (ops : list eop) : out := OList (etrace fixed einit ops).
+
+(* ... with quiet steps (flag true: the harness does not call Index() after the operation), as in
+   Model/IndexCache.trace_q *)
+Fixpoint etrace_q (fixed : bool) (s : est) (ops : list (bool * eop)) : list out :=
+  match ops with
+  | [] => []
+  | (q, o) :: r =>
+    let s1 := estep fixed s o in
+    if q then OSym "quiet" :: etrace_q fixed s1 r
+    else let '(v, s2) := eread_now s1 in
+         OList [OBool v; OBool (edisk_ext s2)] :: etrace_q fixed s2 r
+  end.
+
+Definition c20_ext_q (fixed : bool) (ops : list (bool * eop)) : out := OList (etrace_q fixed einit ops).
